@@ -1772,3 +1772,12 @@ dispatch_mach_xpc_hooks_t _dispatch_mach_xpc_hooks =
 		&_dispatch_mach_xpc_hooks_default;
 
 #endif // HAVE_MACH
+
+#if defined(DISPATCH_VERIF) && DISPATCH_VERIF
+#pragma mark -
+#pragma mark verification hooks
+// see shims/atomic.h; installed by a verification harness, NULL otherwise
+dispatch_verif_pre_t _dispatch_verif_pre;
+dispatch_verif_post_t _dispatch_verif_post;
+dispatch_verif_probe_t _dispatch_verif_probe;
+#endif // DISPATCH_VERIF
